@@ -42,8 +42,9 @@ MANIFEST = dict(
     design_ref="DESIGN.md §5 C05",
     note="trusted: Lean kernel, axioms ⊆ {propext, Classical.choice, Quot.sound}; hand-written model (differential "
          "correspondence); the DP's choice of bipartition and transmission path is taken from the implementation "
-         "(trace / API), its optimality is C01's subject; one theorem is `_partial` (glue super-read = get_alleles of the "
-         "column is assumed there, and checked by correspondence on every run)",
+         "(trace / API), its optimality is C01's subject; `homozygous_parent_phased_without_reads` is proved end to end on "
+         "C01's solver model (super reads = get_alleles of every column under the back-traced witness; any pedigree with one "
+         "trio per child and no cycle); the earlier `_partial` version (glue assumed, on the C05 column model) is kept",
     technique="Lean 4 proof (structural induction on the partition recursion, finite tables by `decide`, general lemmas on "
               "get_alleles) + differential correspondence + independent VCF-level oracle",
 )
